@@ -206,16 +206,21 @@ def as_seq(v):
 class SymList(SymIterable):
     """list of unknown length; elements are refs of `cls` (or ints when cls is None)"""
 
-    def __init__(self, t, cls=None, attrs=None):
+    def __init__(self, t, cls=None, attrs=None, rev=False):
         self.t, self.cls = t, cls
         self.attrs = attrs or {}
+        self.rev = rev            # iteration order reversed (reversed(list)); the z3 Seq is in list order
 
     def length(self):
         return sym.mkint(z3.Length(self.t))
 
     def elem(self, i):
-        e = self.t[zint(i)]
+        idx = (z3.Length(self.t) - 1 - zint(i)) if self.rev else zint(i)
+        e = self.t[idx]
         return SymRef(self.cls, e) if self.cls is not None else sym.mkint(e)
+
+    def reversed(self):
+        return SymList(self.t, self.cls, self.attrs, not self.rev)
 
     def append(self, x):
         self.t = z3.Concat(self.t, as_seq([x]))
@@ -284,6 +289,10 @@ def install(interp):
         return old_isinstance(x, t)
 
     ov[builtins.len], ov[builtins.isinstance] = b_len, b_isinstance
+
+    def b_reversed(x):
+        return x.reversed() if isinstance(x, SymList) else reversed(x)
+    ov[builtins.reversed] = b_reversed
     old_truth = interp.truth
 
     def truth(v):
